@@ -376,10 +376,31 @@ class Hugr(Mapping[Node, NodeData], Generic[OpVarCov]):
             sub_offset = next(
                 i for i, inp in enumerate(self.linked_ports(src)) if inp == dst
             )
-            self._links.delete_left(_SubPort(src, sub_offset))
         except StopIteration:
             return
-        # TODO make sure sub-offset is handled correctly
+        src_sub = _SubPort(src, sub_offset)
+        dst_sub = self._links.fwd[src_sub]
+        self._links.delete_left(src_sub)
+        # keep the sub-offsets of both ports contiguous, so that the remaining
+        # links stay visible to `linked_ports`
+        self._close_sub_offset_gap(src_sub)
+        self._close_sub_offset_gap(dst_sub)
+
+    def _close_sub_offset_gap(self, gap: _SubPort[P]) -> None:
+        """After the link at sub-port `gap` was removed, move the links at the
+        higher sub-offsets of the same port down by one, preserving their order.
+        """
+        nxt = gap.next_sub_offset()
+        if isinstance(gap.port, OutPort):
+            while (tgt := self._links.get_right(nxt)) is not None:
+                self._links.delete_left(nxt)
+                self._links.insert_left(gap, tgt)
+                gap, nxt = nxt, nxt.next_sub_offset()
+        else:
+            while (src := self._links.get_left(nxt)) is not None:
+                self._links.delete_right(nxt)
+                self._links.insert_left(src, gap)
+                gap, nxt = nxt, nxt.next_sub_offset()
 
     def root_op(self) -> OpVarCov:
         """The operation of the root node.
